@@ -18,7 +18,7 @@ NA = {
 CHECKS = {
  "C03": dict(
    level="exploration", ref="4/C03",
-   text="Seeded search over (medium x stored-byte faults x delivery schedule): streams written by the real writer and by an independent foreign-ECU stub are damaged by the whole fault catalogue (bit flips, byte overwrites, LEN / NOAR / type-info / length-prefix corruption, junk, dropped / zeroed / duplicated blocks, truncation, torn writes followed by > 64 KiB fill tails) and delivered through a scripted source to four consumers that keep running after the fault: streaming slice consumer (dlt_message, 4 option combinations, pattern resync), indexer (dlt_consume_msg, skip_storage_header, random-access parses), non-verbose decode stage (construct_arguments, dlt_zero_terminated_string) and use of every returned message (as_bytes, byte_len, Argument::len/as_bytes/valid, UTF-8 re-check). catch_unwind around every call; overflow checks and debug assertions on; second pass with a Trace logger. Sampling, not a proof of panic-freedom.",
+   text="Seeded search over (medium x stored-byte faults x delivery schedule): streams written by the real writer and by an independent foreign-ECU stub are damaged by the whole fault catalogue (bit flips, byte overwrites, LEN / NOAR / type-info / length-prefix corruption, junk, dropped / zeroed / duplicated blocks, truncation, torn writes followed by > 64 KiB fill tails) and delivered through a scripted source to four consumers that keep running after the fault: streaming slice consumer (dlt_message, 4 option combinations, pattern resync), indexer (dlt_consume_msg, skip_storage_header, random-access parses), non-verbose decode stage (construct_arguments, dlt_zero_terminated_string) and use of every returned message (as_bytes, byte_len, Argument::len/as_bytes/valid, UTF-8 re-check). catch_unwind around every call; overflow checks and debug assertions on; second pass with a Trace logger; the check runs in a supervised child process, so a stack overflow, a refused allocation or a run that does not end (20 s of its own CPU time) is located, minimised and reported as a violation too instead of killing the check. Sampling, not a proof of panic-freedom.",
    note="Claimed only in the form DESIGN.md section 2 item 3 allows (stored-byte fault followed by continued operation); call by call these entry points are pure functions. Not a coverage-guided fuzzer, not run under Miri: out-of-bounds reads inside safe code would surface as panics, the one unsafe block is covered by the UTF-8 re-check.",
    technique="deterministic simulation: storage-fault injection on a simulated medium + scripted delivery to long-running consumers, no-panic / validity invariants, seeded search, minimised replay files"),
  "C04": dict(
@@ -33,17 +33,17 @@ CHECKS = {
    technique="deterministic simulation: exhaustive enumeration of the instant the stream stops (every cut offset) + scripted incremental delivery, protocol invariant 'incomplete with safe hint'"),
  "C06": dict(
    level="exploration", ref="4/C06",
-   text="Seeded search over storage-mode streams with pattern-free junk before / between / after records (biased to end in D, DL, DLT, to contain DLT\\0 and DDLT, lengths around 16 and up to 4 KiB) delivered under scripted fragmentation so that partial patterns sit at the end of the buffer at call time. forward_to_next_storage_header is compared with a naive first-match search (offset and remainder pointer) on every buffer the consumer holds; junk ++ m ++ s must parse like m ++ s; every record wholly delivered must be recovered in order exactly once.",
+   text="Seeded search over storage-mode streams with pattern-free junk before / between / after records (biased to end in D, DL, DLT, to contain DLT\\0 and DDLT; lengths 0..64, around 16, 2^k-4..2^k+4 for k = 5..15, and holes around 64 KiB and 128 KiB) delivered under scripted fragmentation so that partial patterns sit at the end of the buffer at call time. forward_to_next_storage_header is compared with a naive first-match search (offset and remainder pointer) on every buffer the consumer holds; junk ++ m ++ s must parse like m ++ s without a filter, with the run's filter and with a filter that drops everything; every record wholly delivered must be recovered in order exactly once, and a second consumer with a filter must find every record at the same (offset, consumed) pair.",
    note="Runs whose record bodies contain the pattern by chance are discarded (counted), because the harness's resync policy, not the crate, would be judged. Expected items come from a second run of the real parser on the clean piece.",
    technique="deterministic simulation: junk-sector injection + scripted delivery to a resynchronising consumer, reference-model oracle (naive search), seeded search, replay files"),
  "C07": dict(
    level="exploration", ref="4/C07",
-   text="Seeded search over (medium x read schedule x fault) for the real DltMessageReader: every read() result is a simulator decision (fragment size incl. boundary-hunting cuts, Interrupted bursts, one hard error, early EOF), media are written by the real writer and damaged by the fault catalogue, reader capacities are drawn per run so the BufReader refills inside records. Checked against an independent Cutter plus slice parsing of each piece.",
-   note="Trusted: the Cutter model (40 lines), ScriptedRead obeying the Read contract, std BufReader/read_exact. Expected value of each piece comes from the real dlt_message, so parser bugs are invisible here by construction. Nothing is required after a hard I/O error, a panic or LEN < 4.",
+   text="Seeded search over (medium x read schedule x fault) for the real DltMessageReader: every read() result is a simulator decision (fragment size incl. boundary-hunting cuts, Interrupted bursts, one hard error, early EOF), media are written by the real writer and damaged by the fault catalogue, reader capacities are drawn per run so the BufReader refills inside records, and in 1 run of 12 message_max_len is drawn BELOW a length the stream declares (the Cutter then expects an error, never a panic). Checked against an independent Cutter plus slice parsing of each piece.",
+   note="Trusted: the Cutter model (40 lines), ScriptedRead obeying the Read contract, std BufReader/read_exact. Expected value of each piece comes from the real dlt_message, so parser bugs are invisible here by construction. Nothing is required after a hard I/O error, a panic, LEN < 4 or a record larger than the configured message_max_len.",
    technique="deterministic simulation: scripted Read source (fragmentation, EINTR, EIO, EOF) + storage faults, reference-model oracle (Cutter), seeded search, minimised replay files"),
  "C08": dict(
    level="exploration", ref="4/C08",
-   text="Seeded search over poll schedules for the real DltStreamReader on a hand-written executor: every poll_read result (Pending bursts with parked wakers, Ready(k), early EOF, rarely a hard error) and every executor choice (which woken task runs, when a parked waker fires, double wakes, spurious polls, 1..4 interleaved reader tasks) is a recorded decision. Oracle: the blocking reader on the same bytes with an always-ready source; plus bounded progress (polls <= 2 * (Pending decisions + calls) + 16, no lost wake-up).",
+   text="Seeded search over poll schedules for the real DltStreamReader on a hand-written executor: every poll_read result (Pending bursts with parked wakers, Ready(k), early EOF, rarely a hard error) and every executor choice (which woken task runs, when a parked waker fires, double wakes, spurious polls, 1..4 interleaved reader tasks) is a recorded decision. Oracle: the blocking reader on the same bytes (same capacities, incl. message_max_len below a declared length) with an always-ready source, messages and terminal outcome compared also at records with LEN < 4 or above the configured maximum; plus bounded progress (polls <= 2 * (Pending decisions + calls) + 16, no lost wake-up).",
    note="No cancellation (the API documents itself as not cancel safe) and no Interrupted (outside C08's quantifier). The reference is the real blocking reader, decided separately by C07.",
    technique="deterministic simulation: scripted AsyncRead + own executor (wake order, spurious polls) under a seeded scheduler, differential oracle against the blocking reader, bounded-liveness check, replay files"),
  "C10": dict(
@@ -53,8 +53,8 @@ CHECKS = {
    technique="deterministic simulation: scripted Read source + seeded merge histories, reference-model oracle (header decoder + tally), replay files"),
  "C12": dict(
    level="fault_enumeration", ref="4/C12",
-   text="Fault enumeration on content at rest: every truncation offset of the two shipped documents and of generated documents, plus seeded byte faults, structure-aware deletions, non-numeric numbers, UTF-16 re-encoding and file-level faults (missing / empty / directory / symlink loop / empty path list). Termination is decided in steps of the XML reader through the guarded hook (budget 2*bytes+64), so a hang is a deterministic, replayable signal; no panic; answer is Some or None.",
-   note="Read-level faults (EIO, short reads) cannot be injected: the API takes paths and read_pdu/read_frame are typed to BufReader<File>. A 120 s wall-clock watchdog is only a backstop. Exhaustive per document over cut positions; documents are sampled.",
+   text="Fault enumeration on content at rest: every truncation offset of the two shipped documents and of generated documents, plus seeded byte faults, structure-aware deletions, non-numeric and extreme numbers, rewired references (self references, cycles, wrong kind, duplicated ids), elements nested into each other, 64..200000-fold repeated start tags / CDATA / comment openers, UTF-16 re-encoding and file-level faults (missing / empty / directory / symlink loop / empty path list). Termination is decided in steps of the XML reader through the guarded hook (budget 2*bytes+64), so a hang there is a deterministic, replayable signal; a loop elsewhere is cut by a CPU-time budget (20 s of the loading thread's own CPU time; a load needs < 50 ms) in a supervised child process, which also turns a stack overflow or a refused allocation into a located, minimised violation; no panic; answer is Some or None.",
+   note="Read-level faults (EIO, short reads) cannot be injected: the API takes paths and read_pdu/read_frame are typed to BufReader<File>. Wall-clock time decides nothing (a 15-minute per-run limit exists only for a run blocked in the kernel). Exhaustive per document over cut positions; documents are sampled.",
    technique="deterministic simulation: torn-file enumeration (every byte) + stored-byte fault injection, step-clock hook for bounded liveness, replay files"),
  "C16": dict(
    level="exploration", ref="4/C16",
@@ -79,7 +79,7 @@ def main():
         "name": "dltsim",
         "path": "sim",
         "serves_properties": sorted(CHECKS.keys()),
-        "kind_free_text": "seeded deterministic simulation of byte sources, poll schedules, storage faults and merge histories around the real dlt-core readers and parsers; reference-model oracles; delta-debugging minimiser; replay files",
+        "kind_free_text": "seeded deterministic simulation of byte sources, poll schedules, storage faults and merge histories around the real dlt-core readers and parsers; reference-model oracles; delta-debugging minimiser; replay files; supervisor process with run journal and CPU-time watchdog for crashes and hangs that do not unwind",
       }],
       "checks": [],
       "not_applicable": [{"property_id": k, "reason": v} for k, v in sorted(NA.items())],
